@@ -1,7 +1,10 @@
 #!/usr/bin/env python3
 """writes seeded/MUTATION_SUMMARY.md from seeded/mutation_sweep.jsonl"""
 import collections, json
+import os
 rows = [json.loads(l) for l in open("/verif/seeded/mutation_sweep.jsonl")]
+if os.path.exists("/verif/seeded/mutation_sweep_names.jsonl"):
+    rows += [json.loads(l) for l in open("/verif/seeded/mutation_sweep_names.jsonl")]
 comp = [r for r in rows if r["status"] != "does-not-compile"]
 interesting = [r for r in comp if r.get("passes_tests")]
 killed_i = [r for r in interesting if r["status"].startswith("killed")]
@@ -44,6 +47,12 @@ VERDICT = {
     ("launchpad-common/src/random.rs", 69): "equivalent on reachable executions (min < max at every call site)",
     ("launchpad-common/src/ongoing_operation.rs", 47): "gas bookkeeping replaced by the iteration-budget hook (trusted base)",
     ("launchpad-locked-tokens/src/locked_launchpad_token_send.rs", 71): "equivalent on the debug VM (a direct transfer of 0 changes nothing)",
+    ("launchpad-with-nft/src/mystery_sft.rs", 60): "SFT set-up flags: partial set-up states are not modelled (documented limit)",
+    ("launchpad-guaranteed-tickets-v2/src/guaranteed_ticket_winners.rs", 214): "the leftover loop never ends; the repository's tests fail too; `check ALL` ran into its time limit (the exploration deadline now also stops running traces)",
+    ("launchpad-with-nft/src/confirm_nft.rs", 17): "GAP at the time of the sweep (the SFT collection was always set up before the sale), now covered: some NFT lifecycles set it up only before the claims",
+    ("launchpad-nft-and-guaranteed-tickets/src/combined_selection.rs", 46): "equivalent: the flag guards of the combined step already imply the selection stage",
+    ("launchpad-with-nft/src/mystery_sft.rs", 55): "GAP at the time of the sweep (the permission check of createInitialSfts was masked by 'Invalid token ID'), now killed by C15 (probes in the issued-but-not-created state)",
+    ("launchpad-with-nft/src/mystery_sft.rs", 40): "GAP at the time of the sweep (issueMysterySft was never probed by strangers before anything was issued), now killed by C15",
     ("launchpad-guaranteed-tickets/src/token_release.rs", 56): "GAP at the time of the sweep (v1 schedule change exactly at the confirmation start round), now killed by C13 and C17 with a concrete input",
 }
 for r in surv:
